@@ -191,6 +191,38 @@ def run(ctx, rep) -> None:
         n_exec = len([c_ for c_ in ast.walk(f_.node) if isinstance(c_, ast.Call) and isinstance(c_.func, ast.Attribute) and c_.func.attr == "execute"])
         rep.check(n_stmt >= n_exec, "C09.R3", f"{f_.module.name}: every query of the hydration listing is a literal statement", f"{n_stmt} recognised statement(s) for {n_exec} execute call(s)" if n_stmt >= n_exec else
                   f"{n_exec - n_stmt} execute call(s) run a query assembled at run time: its predicate cannot be checked for completeness", f_.file, f_.node.lineno, disc=f"listing-dynamic:{f_.module.name}")
+    # the durable lookup never FAILS OPEN: an error while asking "was this message processed?" must reach the processor (the
+    # message is then retried), never be answered "not processed"
+    n_lk = 0
+    for f_ in prog.all_functions():
+        if f_.qualname.split(".")[-1] != "is_message_processed" or not f_.module.name.startswith("stabilize.persistence") or f_.parent is not None:
+            continue
+        if not (rep.tier == "thorough" or "postgres" not in f_.module.name):
+            continue
+        n_lk += 1
+        swallow = [h_ for t_ in ast.walk(f_.node) if isinstance(t_, ast.Try) for h_ in t_.handlers if not any(isinstance(x_, ast.Raise) for x_ in ast.walk(h_))]
+        rep.check(not swallow, "C09.R1", f"{f_.module.name}.{f_.qualname}: a failing lookup is not answered 'not processed'", "no exception handler without re-raise" if not swallow else
+                  f"`except {norm(swallow[0].type) if swallow[0].type is not None else ''}` at line {swallow[0].lineno} answers instead of raising: a transient failure of the lookup (database locked, I/O error) lets an already "
+                  "processed message through to its handler again", f_.file, swallow[0].lineno if swallow else f_.node.lineno, disc=f"lookup-fail-open:{f_.module.name}")
+    hm_ = prog.func("stabilize.queue.processor.mixins", "QueueProcessorMixin._handle_message")
+    for c_ in ast.walk(hm_.node):
+        if isinstance(c_, ast.Call) and isinstance(c_.func, ast.Attribute) and c_.func.attr == "is_message_processed":
+            n_lk += 1
+            par_ = {}
+            for n_ in ast.walk(hm_.node):
+                for ch_ in ast.iter_child_nodes(n_):
+                    par_[id(ch_)] = n_
+            cur_, guarded = c_, None
+            while id(cur_) in par_:
+                p_ = par_[id(cur_)]
+                if isinstance(p_, ast.Try) and any(cur_ is x_ for x_ in p_.body):
+                    for h_ in p_.handlers:
+                        if not any(isinstance(x_, ast.Raise) for x_ in ast.walk(h_)):
+                            guarded = h_
+                cur_ = p_
+            rep.check(guarded is None, "C09.R1", "_handle_message: an error of the durable lookup propagates", "the lookup is not wrapped in a swallowing try" if guarded is None else
+                      f"the lookup sits in a try whose handler at line {guarded.lineno} does not re-raise: a failing lookup is treated as 'not processed'", hm_.file, c_.lineno, disc="lookup-swallowed")
+    rep.floor("durable lookup sites", n_lk, 2)
     rep.check(bool(exc_ret), "C09.R3", "hydration failure leaves the filter advisory", "exception while listing ids returns without hydrate", lister.file, lister.node.lineno, disc="exc")
     # the ids handed to hydrate() are read AFTER the filter was cleared: no reset() between reading them and hydrating
     src_line = src_assign[-1].lineno if src_assign else hd.node.lineno
